@@ -51,7 +51,7 @@ pub enum Case {
     /// `TimeDelta::try_from(wire Duration{nanos})`, and back
     DurationToTimeDelta { nanos: u64 },
     /// `DateTime::<Utc>::try_from(wire Instant)`, and back
-    InstantToDateTime { secs: u64, nanos: u32 },
+    InstantToDateTime { secs: u64, nanos: u32, wire: Wire },
     /// `Instant::try_from(DateTime::from_timestamp(secs, nanos))`, and back
     DateTimeToInstant { secs: i64, nanos: u32 },
     /// `serde_json::from_str::<Duration>({"nanos": <text>})`
@@ -70,7 +70,7 @@ impl Case {
             | Case::InstantNew { secs, nanos }
             | Case::InstantToSystemTime { secs, nanos, .. }
             | Case::SystemTimeToInstant { secs, nanos, .. }
-            | Case::InstantToDateTime { secs, nanos } => *secs == 0 && *nanos == 0,
+            | Case::InstantToDateTime { secs, nanos, .. } => *secs == 0 && *nanos == 0,
             Case::TimeDeltaToDuration { secs, nanos } | Case::DateTimeToInstant { secs, nanos } => {
                 *secs == 0 && *nanos == 0
             }
@@ -193,15 +193,29 @@ pub fn judge(conv: &'static str, input: &str, e: &Expect, got: &Got) -> Check {
         Got::Value(v) => {
             c.accepted = true;
             if !e.representable {
+                // How an invalid sub-second part was let through decides the finding: the ways
+                // already on record (K8: SystemTime normalises because it has no other choice;
+                // the chrono conversions keep the pair as chrono's leap-second encoding) keep
+                // the key `instant/subsec-unchecked/<conversion>`; carrying the excess into the
+                // seconds where the pair could have been kept or refused is a different defect.
+                let carried = matches!((&e.exact, v), (a, b) if a.ord() == b.ord() && a != b);
+                let kept = &e.exact == v;
                 let key = if e.reason == "invalid-subsec" {
-                    format!("instant/subsec-unchecked/{conv}")
+                    let baseline_is_kept = conv != "instant-to-systemtime";
+                    if (baseline_is_kept && kept) || (!baseline_is_kept && carried) {
+                        format!("instant/subsec-unchecked/{conv}")
+                    } else if carried {
+                        format!("{}/subsec-carried", named(conv))
+                    } else {
+                        format!("{}/invalid-subsec-altered", named(conv))
+                    }
                 } else {
                     format!("{conv}/{}-not-rejected", e.reason)
                 };
                 let how = match (&e.exact, v) {
                     (Repr::Nanos(x), Repr::Nanos(y)) if (x - y).rem_euclid(U64MAX + 1) == 0 => " (wrapped modulo 2^64)",
-                    (a, b) if a.ord() == b.ord() && a != b => " (silently normalised)",
-                    (a, b) if a == b => " (kept as an invalid value)",
+                    (a, b) if a.ord() == b.ord() && a != b => " (sub-second excess silently carried into the seconds)",
+                    (a, b) if a == b => " (kept as is)",
                     _ => "",
                 };
                 c.class = format!("VIOLATION {}-not-rejected", e.reason);
@@ -249,6 +263,25 @@ pub fn judge(conv: &'static str, input: &str, e: &Expect, got: &Got) -> Check {
     c
 }
 
+/// Finding-key name of a conversion (the chrono ones carry the module name).
+fn named(conv: &str) -> String {
+    match conv {
+        "instant-to-datetime" | "datetime-to-instant" => format!("chrono/{conv}"),
+        other => other.to_string(),
+    }
+}
+
+/// The conversion a round trip's way back goes through.
+fn back_step(conv: &str) -> &'static str {
+    match conv {
+        "datetime-to-instant-and-back" => "instant-to-datetime",
+        "instant-to-datetime-and-back" => "datetime-to-instant",
+        "instant-to-systemtime-and-back" => "systemtime-to-instant",
+        "systemtime-to-instant-and-back" => "instant-to-systemtime",
+        _ => "",
+    }
+}
+
 /// A round trip `a -> b -> a` after an accepted, exact forward step.
 fn judge_back(conv: &'static str, input: &str, original: &Repr, got: &Got) -> Check {
     let mut c = Check {
@@ -267,10 +300,13 @@ fn judge_back(conv: &'static str, input: &str, original: &Repr, got: &Got) -> Ch
         Got::Value(v) => {
             c.accepted = true;
             c.class = "VIOLATION round-trip differs".into();
-            c.violation = Some((
-                format!("{conv}/silently-different"),
-                format!("{conv}: {input} came back as {} instead of {}", v.show(), original.show()),
-            ));
+            // a carry on the way back is the back step's defect and is keyed as such
+            let key = if v.ord() == original.ord() && !back_step(conv).is_empty() {
+                format!("{}/subsec-carried", named(back_step(conv)))
+            } else {
+                format!("{conv}/silently-different")
+            };
+            c.violation = Some((key, format!("{conv}: {input} came back as {} instead of {}", v.show(), original.show())));
         }
         Got::Err(s) => c.class = format!("round-trip refused Err({})", panic_class(s)),
         Got::Panic(m) if m.starts_with("attempt to ") => {
@@ -508,8 +544,8 @@ pub fn run_case(case: &Case, t: &mut Trace) -> CaseResult {
                 })));
             }
         }
-        Case::InstantToDateTime { secs, nanos } => {
-            let inst = match mk_instant(secs, nanos, Wire::Bincode) {
+        Case::InstantToDateTime { secs, nanos, wire } => {
+            let inst = match mk_instant(secs, nanos, wire) {
                 Ok(i) => i,
                 Err(e) => {
                     t.step(|| format!("wire refuses Instant({secs},{nanos}): {e}"));
@@ -553,8 +589,11 @@ pub fn run_case(case: &Case, t: &mut Trace) -> CaseResult {
                 let (s, n) = inst_parts(&x);
                 Ok(Repr::Pair(s as i128, n as i128))
             }));
-            if fwd!("datetime-to-instant", e, got) {
-                let inst = inst.unwrap();
+            // the way back is taken whenever an Instant came out, also for a leap-second DateTime
+            // whose Instant is itself on record (K8): DateTime -> Instant -> DateTime must be
+            // exact or refused
+            let _ = fwd!("datetime-to-instant", e, got);
+            if let Some(inst) = inst {
                 back!("datetime-to-instant-and-back", Repr::Pair(secs as i128, nanos as i128), lift(attempt(|| {
                     let x = DateTime::<Utc>::try_from(inst).map_err(time_err)?;
                     Ok(Repr::Pair(x.timestamp() as i128, x.timestamp_subsec_nanos() as i128))
@@ -696,7 +735,7 @@ enum Unit {
     InstantSysSecs(u64, Wire),
     SysInstantSecs(u64, bool),
     TimeDeltaSecs(i64),
-    InstantDateTimeSecs(u64),
+    InstantDateTimeSecs(u64, Wire),
     DateTimeSecs(i64),
     JsonDuration(String),
     JsonInstantSecs(String),
@@ -822,9 +861,9 @@ fn explore_unit(u: &Unit, l: &Lattice) -> Agg {
                 explore_case(Case::TimeDeltaToDuration { secs, nanos }, &mut a);
             }
         }
-        Unit::InstantDateTimeSecs(secs) => {
+        Unit::InstantDateTimeSecs(secs, wire) => {
             for &nanos in &l.nanos {
-                explore_case(Case::InstantToDateTime { secs, nanos }, &mut a);
+                explore_case(Case::InstantToDateTime { secs, nanos, wire }, &mut a);
             }
         }
         Unit::DateTimeSecs(secs) => {
@@ -892,7 +931,8 @@ pub fn run(tier: Tier) -> i32 {
         units.push(Unit::InstantSysSecs(v, Wire::Json));
         units.push(Unit::SysInstantSecs(v, false));
         units.push(Unit::SysInstantSecs(v, true));
-        units.push(Unit::InstantDateTimeSecs(v));
+        units.push(Unit::InstantDateTimeSecs(v, Wire::Bincode));
+        units.push(Unit::InstantDateTimeSecs(v, Wire::Json));
     }
     for &v in &l.i64s {
         units.push(Unit::TimeDeltaSecs(v));
@@ -1014,8 +1054,8 @@ pub fn run(tier: Tier) -> i32 {
                 "instant-to-systemtime": "Instant deserialized from {bincode, JSON} of (B_u64, B_u32) (bypasses Instant::new)",
                 "systemtime-to-instant": "UNIX_EPOCH {+,-} Duration::new(B_u64, B_u32 < 10^9)",
                 "timedelta-to-duration": "TimeDelta::new(B_i64, B_u32) where chrono accepts it",
-                "instant-to-datetime": "Instant deserialized from bincode of (B_u64, B_u32)",
-                "datetime-to-instant": "DateTime::from_timestamp(B_i64, B_u32) where chrono accepts it (includes MIN_UTC, MAX_UTC and leap-second representations)",
+                "instant-to-datetime": "Instant deserialized from {bincode, JSON} of (B_u64, B_u32); B_u32 holds 0, 1, 10^9-1, 10^9, 10^9+1, 2*10^9-1, 2*10^9, 2^32-1 (each +-window) and B_u64 holds seconds congruent 59 mod 60 next to every base as well as others",
+                "datetime-to-instant": "DateTime::from_timestamp(B_i64, B_u32) where chrono accepts it (includes MIN_UTC, MAX_UTC and leap-second representations); the way back to DateTime is taken for every Instant that comes out, leap seconds included",
                 "json-to-duration / json-to-instant": "json number texts (x json number texts)",
             },
         },
@@ -1034,6 +1074,7 @@ pub fn run(tier: Tier) -> i32 {
             "std::time and chrono constructors/accessors are trusted (cross-checked against the harness's own i128 arithmetic on every case)",
             "wire values are written and read through bincode/serde_json of the wire types (their fields are private); the layout itself is C10's subject",
             "a panic raised by a compiler-inserted arithmetic overflow check counts as a violation because the default release profile compiles it out",
+            "instants are compared as (seconds, sub-second nanoseconds) pairs, not as a sum: by chrono's documented rule a DateTime whose nanosecond field is in [10^9, 2*10^9) at a second ending in :59 denotes the leap second 23:59:60.x that follows that second, which POSIX time cannot tell from the next ordinary second; (s, 10^9 + x) and (s + 1, x) therefore denote different instants, keeping the pair re-encodes the same leap second (on record as K8 because an Instant must not hold it), carrying the excess into the seconds silently changes the instant and is keyed <conversion>/subsec-carried",
         ],
     )
 }
